@@ -7,7 +7,7 @@ from . import lazycommon as lc
 
 class C13(Prop):
     id = "C13"
-    contract_modules = ["lazylist"]
+    contract_modules = ["lazylist", "lazylist2"]
     trusted_base = ["CPython semantics of the subset (DESIGN 2.2)", "z3 5.1 / cvc5 1.0.3 (unsat answers)", "vyxalify is the identity on Vyxal values", "generator protocol: the pull-count clauses of __iter__ assume that a consumer does not touch the lazy list between two resumptions; that it yields every item once and in order is also proved WITHOUT that assumption (contract __iter__#interleaved: other references may pull in between)"]
     paper_steps = ["history quantifier: every method is proved from an arbitrary state satisfying the representation invariant generated == src[:k] and re-establishes it with src unchanged, so no sequence of observations can change a later observation's result"]
 
@@ -42,7 +42,7 @@ class C13(Prop):
     def bounded(self, W, tier, seed):
         depth = 3 if tier != "thorough" else 4
         w, n = lc.explore(3, depth, budget=400000 if tier != "thorough" else None)
-        return [dict(name="C13/bounded-observation-histories", what="every history of observations (index with wrap, negative index, len, bool, iteration, membership, equality, count, reversal, copy, concatenation, open slice, has_ind) on every source list over {0,1,2}, compared with the plain list; denotation and copies re-read at the end", bound=f"sources of length <= 3, histories of length <= {depth}, 19 operations", evaluations=n, label="bounded", failures=[w] if w else [])]
+        return [dict(name="C13/bounded-observation-histories", what="every history of observations (index with wrap, negative index, len, bool, iteration, membership, equality with a plain list and with a fresh lazy list over the same items on either side, count, reversal, copy, concatenation, open slice, has_ind) on every source list over {0,1,2}, compared with the plain list; denotation and copies re-read at the end", bound=f"sources of length <= 3, histories of length <= {depth}, 21 operations", evaluations=n, label="bounded", failures=[w] if w else [])]
 
     def replay(self, W, report, ob):
         w, n = lc.explore(3, 3, budget=150000)
